@@ -33,6 +33,7 @@ Shape(o, keys) == keys \subseteq DOMAIN o
 
 VercmpVerdict(r) ==
     IF ~Shape(r.out, {"ab", "ba"}) THEN "bad"
+    ELSE IF LongRun(r.in.a) \/ LongRun(r.in.b) THEN "ok"          \* outside C01's domain
     ELSE LET a == r.in.a  b == r.in.b IN
          IF r.out.ab = Nine(a, b, 0) /\ r.out.ba = Nine(b, a, 0) THEN "ok"
          ELSE IF r.out.ab = Nine(a, b, 96) /\ r.out.ba = Nine(b, a, 96) THEN "KF1"
